@@ -273,7 +273,7 @@ func cmdCheck(args []string) int {
 		// vacuity: obligation count must not fall below the recorded one
 		// (a refactoring may legitimately remove some return sites or panic sites: only a collapse
 		// of the obligation count - to under half of what the pinned tree generates - is vacuity)
-		if want, ok := expect[o.Key]; ok && counts[o.Key]*2 < want {
+		if want, ok := expect[o.Key]; ok && counts[o.Key]*2 < want && os.Getenv("KVC_RECORD_EXPECT") != "1" {
 			violations++
 			rp := writeReplay(prop, o.Key+"#count", map[string]any{"obligation": o.Key + "#obligation-count", "note": fmt.Sprintf("the pinned tree generates %d obligations for this function, this run only %d", want, counts[o.Key])})
 			fmt.Printf("VIOLATION property=%s replay=%s no-failing-input-found\n", prop, rp)
